@@ -79,12 +79,13 @@ PROPS = {
     'C14': {'suites': [{'name': 'claim', 'quick': '-n 4000', 'thorough': '-n 60000', 'shards': {'quick': 2, 'thorough': 16}}],
             'trusted_base': [
                 'model: coq/Ext/ClaimHash.v (type tag + 8-byte length-prefixed fields of each event type; sdk.Int as sign byte + minimal big-endian magnitude; members in Sort() order) is hand-written; '
-                'tied to /repo by comparing, on generated pairs of events, the equality pattern Hash(e1)==Hash(e2) of the real per-type Hash() with equality of the model\'s byte strings '
-                '(single-field mutants of every field and boundary shifts between neighbouring variable-length fields), so no SHA-256 model is needed',
+                'tied to /repo by comparing, on generated pairs of events, (a) the byte string the real per-type Hash() feeds into SHA-256 (recorded by the verif-tagged hasher hook) with the model\'s byte string, byte for byte, and '
+                '(b) the equality pattern Hash(e1)==Hash(e2) with equality of the model\'s strings (single-field mutants of every field, boundary shifts, separator-absorbing pairs built from the observed byte strings, power swaps), so no SHA-256 model is needed',
                 'SHA-256 collision resistance is a hypothesis of C14_claim_ids (an arbitrary injective function in the statement)'],
             'rule': 'pairs (event, mutant) over the five event types: identical copy; one field changed (nonce, height, coin, amount incl. x256 / negation, fee, sender incl. case and 0x prefix, receiver, chain, tx hash, '
                     'batch nonce, fee paid incl. unset, fee payer, scope, invalidation nonce, return data, set nonce, member power / order / addition / double duplication); '
-                    'boundary shifts (last byte of the coin id into the amount, receiver into chain or sender, scope into return data, tx hash into payer).',
+                    'boundary shifts (last byte of the coin id into the amount, receiver into chain or sender, scope into return data, tx hash into payer); member powers exchanged between two addresses; '
+                    'separator-absorbing pairs (field i swallows the bytes the implementation writes between fields i and j, field j carries them in the twin event).',
             'assumptions': ['event nonces, heights and powers are below 2^64 and fields shorter than 2^64 bytes (hypothesis xwf)']},
     'C07': {'gen': ['gen_srcfacts.py'],
             'suites': [{'name': 'ckpt', 'quick': '-n 50', 'thorough': '-n 600', 'shards': {'quick': 2, 'thorough': 16}},
